@@ -236,7 +236,8 @@ func hashOf(b []byte) string {
 func runConcScenario(c07, c08 *verifrt.Result, base string, s *concScenario, rnd *verifrt.Rand, i int) {
 	td := newTdir(base)
 	defer os.RemoveAll(td.root)
-	on := "on 2020-01-01"
+	// (the date-less form is what older versions wrote; it means "on since ever")
+	on := []string{"on 2020-01-01", "on", "on 2020-01-01", "on\n"}[i%4]
 	td.setMode(&on)
 	files := map[string]*ufile{}
 	byWeek := map[string][]verifref.SourceFile{}
